@@ -355,9 +355,11 @@ def _gen_filter(rng, src, fkind):
             if fkind in ('clip-end', 'clip-both') and after:
                 b = rng.choice([after[0], rng.choice(after)])
     elif fkind == 'window':
+        j = min(j, i + rng.choice([0, 1, 2, 5, 20]))       # the minute path is quadratic in the code
         a, b = days[i], days[j]
         sh, eh = _rand_window(rng)
     elif fkind == 'window-clip':
+        j = min(j, i + rng.choice([0, 1, 2, 5, 20]))
         a, b = days[i], days[j]
         if gap and rng.random() < 0.5:
             a = rng.choice(gap)
@@ -392,7 +394,7 @@ PERIOD_KINDS = ['inside', 'inside', 'inside', 'equal', 'single', 'straddle', 'cl
                 'window', 'window', 'window-clip', 'outside', 'two-piece', 'mismatch']
 
 
-def _sources(ctx, rng):
+def _sources(ctx, rng, oracle=False):
     """[(fields, kind)]: fixed ones first (the witnesses of the repaired defects), then generated."""
     fixed = [
         (12, 1, 0, 1, 31, 23, 1, False), (12, 30, 0, 1, 2, 23, 4, True), (3, 1, 0, 3, 31, 23, 2, False),
@@ -400,7 +402,10 @@ def _sources(ctx, rng):
         (12, 31, 0, 1, 1, 23, 60, False), (1, 1, 0, 1, 1, 23, 30, True),
     ]
     out = [(c, _src_kind(c)) for c in fixed]
-    kinds = ['annual'] * ctx.n(3, 10) + ['partial'] * ctx.n(14, 150) + ['wrapping'] * ctx.n(14, 150)
+    if oracle:
+        kinds = ['annual'] * ctx.n(1, 6) + ['partial'] * ctx.n(6, 100) + ['wrapping'] * ctx.n(6, 100)
+    else:
+        kinds = ['annual'] * ctx.n(1, 10) + ['partial'] * ctx.n(9, 150) + ['wrapping'] * ctx.n(9, 150)
     for k in kinds:
         out.append((_gen_source(rng, k, ctx.quick), k))
     return out
@@ -555,7 +560,7 @@ def correspondence(ctx):
     compare_batch(ctx, 'cont_ap', period_cases,
                   lambda x: 'cont_ap %s %s' % (_line_ap(x[0]), _line_ap(x[1])),
                   _guard(lambda x: _show(_cont(x[0]).filter_by_analysis_period(_mk_ap(x[1])))), canon=_canon)
-    small = [x for x in period_cases if _ndays_of(x[0]) * 24 * x[0][6] <= ctx.n(9000, 40000)]
+    small = [x for x in period_cases if _ndays_of(x[0]) * 24 * x[0][6] <= ctx.n(1500, 9000)]
     compare_batch(ctx, 'disc_ap', small,
                   lambda x: 'disc_ap %s %s %s' % (_line_ap(x[0]), _ints(_ref_moys(x[0])), _line_ap(x[1])),
                   _guard(lambda x: _show(_disc_of_cont(x[0]).filter_by_analysis_period(_mk_ap(x[1])))),
@@ -571,7 +576,7 @@ def correspondence(ctx):
     compare_batch(ctx, 'cont_moys', moy_cases,
                   lambda x: 'cont_moys %s %s' % (_line_ap(x[0]), _ints(x[1])),
                   _guard(lambda x: _show(_cont(x[0]).filter_by_moys(list(x[1])))), canon=_canon)
-    small = [x for x in moy_cases if _ndays_of(x[0]) * 24 * x[0][6] <= ctx.n(9000, 40000)]
+    small = [x for x in moy_cases if _ndays_of(x[0]) * 24 * x[0][6] <= ctx.n(1500, 9000)]
     compare_batch(ctx, 'disc_moys', small,
                   lambda x: 'disc_moys %s %s %s' % (_line_ap(x[0]), _ints(_ref_moys(x[0])), _ints(x[1])),
                   _guard(lambda x: _show(_disc_of_cont(x[0]).filter_by_moys(tuple(x[1])))), canon=_canon)
@@ -583,7 +588,7 @@ def correspondence(ctx):
                   lambda x: 'cont_hoys %s %d %s' % (_line_ap(x[0]), len(x[1]), ' '.join(_fbits(h) for h in x[1])),
                   _guard(lambda x: _show(_cont(x[0]).filter_by_hoys(list(x[1])))), canon=_canon,
                   key=lambda x: (x[0], tuple(repr(h) for h in x[1])))
-    small = [x for x in hoy_cases if _ndays_of(x[0]) * 24 * x[0][6] <= ctx.n(9000, 40000)]
+    small = [x for x in hoy_cases if _ndays_of(x[0]) * 24 * x[0][6] <= ctx.n(1500, 9000)]
     compare_batch(ctx, 'disc_hoys', small,
                   lambda x: 'disc_hoys %s %s %d %s' % (_line_ap(x[0]), _ints(_ref_moys(x[0])), len(x[1]),
                                                      ' '.join(_fbits(h) for h in x[1])),
@@ -776,6 +781,8 @@ def _ref_clip(src, f):
         return e, False
     if len(set(fd)) != len(fd):
         return e, False
+    if fd[0] > fd[-1] and sd[0] <= sd[-1]:
+        return e, False                 # a wrapping filter that leaves a non-wrapping source: not "inside"
     overnight = f[2] > f[5]
     return e, not overnight
 
@@ -985,7 +992,7 @@ def _oracle_cases(ctx):
     for c in CORPUS:
         yield c
     big = ctx.searching or not ctx.quick
-    srcs = _sources(ctx, rng)
+    srcs = _sources(ctx, rng, oracle=True)
     if ctx.searching and ctx.quick:
         srcs = srcs + [(_gen_source(rng, k, True), k) for k in ['partial', 'wrapping'] * 30]
     for c, kind in srcs:
@@ -995,11 +1002,11 @@ def _oracle_cases(ctx):
         kinds = [k for k in PERIOD_KINDS if k not in ('outside', 'two-piece', 'mismatch')]
         if kind == 'annual':
             kinds += ['wrap-long', 'straddle']
-        for _ in range(8 if nvals > 5000 else 14):
+        for _ in range(6 if nvals > 5000 else 10):
             fk = rng.choice(kinds)
             f = _gen_filter(rng, c, fk)
             yield 'period', {'src': list(c), 'path': 'cont', 'fkind': fk, 'filter': list(f)}
-            if nvals <= 9000 and rng.random() < 0.5:
+            if nvals <= 1500 and rng.random() < 0.5:
                 yield 'period', {'src': list(c), 'path': 'disc', 'fkind': fk, 'filter': list(f)}
         smoys = _ref_moys(c)
         for _ in range(4):
@@ -1007,7 +1014,7 @@ def _oracle_cases(ctx):
             req = rng.sample(smoys, min(k, len(smoys)))
             if rng.random() < 0.4:
                 req = list(OrderedDict.fromkeys([smoys[0], smoys[-1], smoys[len(smoys) // 2]] + req))
-            path = 'both' if nvals <= 9000 else 'cont'
+            path = 'both' if nvals <= 1500 else 'cont'
             yield 'moys', {'src': list(c), 'path': path, 'req': req}
             if rng.random() < 0.5:
                 yield 'hoys', {'src': list(c), 'path': path, 'req': req}
